@@ -97,3 +97,7 @@ impl EncoderValue for MaxStreams {
         buffer.encode(&self.maximum_streams);
     }
 }
+
+#[cfg(all(aws_s2n_quic_verif, test))]
+#[path = "/verif/harness/core/frame_max_streams.rs"]
+mod verif;
